@@ -282,6 +282,20 @@ class C03Unit(object):
                 if isinstance(node, ast.If) and 'pskConfigs' in ast.unparse(node.test) and 'filter_for_prfs' in ast.unparse(node):
                     return 'version' in ast.unparse(node.test)
             raise Refuse('_server_select_certificate: PSK PRF narrowing not found')
+        def psk_prf_fallback():
+            # `ciphers = filter_for_prfs(...)` (narrow always) or `x = filter_for_prfs(...); if any(.. cipher_suites ..): ciphers = x`
+            f = find_func(conn_tree, 'TLSConnection', '_server_select_certificate')
+            for node in ast.walk(f):
+                if isinstance(node, ast.Assign) and 'filter_for_prfs' in ast.unparse(node.value) and len(node.targets) == 1:
+                    name = ast.unparse(node.targets[0])
+                    if name == 'ciphers':
+                        return False
+                    for n2 in ast.walk(f):
+                        if isinstance(n2, ast.If) and 'cipher_suites' in ast.unparse(n2.test) and name in ast.unparse(n2.test) \
+                                and [ast.unparse(b) for b in n2.body] == ['ciphers = %s' % name] and not n2.orelse:
+                            return True
+                    raise Refuse('_server_select_certificate: PSK PRF narrowing has an unknown shape')
+            raise Refuse('_server_select_certificate: PSK PRF narrowing not found')
         cke = src('_clientKeyExchange')
         return [
             ('fix_dh_size', 'dhGroupSize' in cke and 'settings.minKeySize' in cke),
@@ -298,6 +312,7 @@ class C03Unit(object):
             ('fix_sigalg_assert', 'assert sig_list' not in src('_clientSendClientHello')),
             ('fix_dhe_dsa_chain', server_chain_covers_dsa()),
             ('fix_psk_prf_tls13_only', psk_prf_only_tls13()),
+            ('fix_psk_prf_fallback', psk_prf_fallback()),
             ('fix_cert_type_vs_suite', '.certAlg' in cke and 'ecdheEcdsaSuites' in cke),
         ]
 
